@@ -81,6 +81,7 @@ type PathResult struct {
 	ClassTrue   []string // open classes true in Model (abnormal ends)
 	Assumed     []string
 	Unknowns    int
+	OpaqueFormats int
 	PCSize      int
 }
 
